@@ -60,6 +60,9 @@ func (c *Initiator) Serve() error {
 
 	stopHandler := sync.Once{}
 
+	// handedOver is closed once everything the connection reader had received has been given to the handler.
+	handedOver := make(chan struct{})
+
 	eg.Go(func() error {
 		defer c.Close()
 
@@ -67,6 +70,13 @@ func (c *Initiator) Serve() error {
 		if err != nil {
 			err = fmt.Errorf("%s: %w", err, ErrConnClosed)
 			defer stopHandler.Do(func() {
+				// The messages received before the connection ended are served first:
+				// the handler is told about the end of the connection after them.
+				select {
+				case <-handedOver:
+				case <-c.handler.Context().Done():
+				}
+
 				c.handler.StopWithError(err)
 			})
 		}
@@ -128,19 +138,15 @@ func (c *Initiator) Serve() error {
 
 	eg.Go(func() error {
 		defer c.Close()
+		defer close(handedOver)
 
-		for {
-			select {
-			case <-c.ctx.Done():
-				return nil
-
-			case msg, ok := <-c.conn.Reader():
-				if !ok {
-					continue
-				}
-				c.handler.ServeIncoming(msg)
-			}
+		// The reader closes its channel when it ends: until then, and until the channel
+		// is empty, every message is passed on (ServeIncoming returns at once when the handler has stopped).
+		for msg := range c.conn.Reader() {
+			c.handler.ServeIncoming(msg)
 		}
+
+		return nil
 	})
 
 	err := eg.Wait()
